@@ -573,6 +573,11 @@ def compare_fresh(obs, fobs, logs_step, flogs, sticky):
     return fails
 
 
+def entry_name(msg):
+    """Cache name of an audit failure message `cache entry <key>: …`."""
+    return key_name(msg[len("cache entry "):].split(": ")[0])
+
+
 def audit_cache(op, A, sticky, pd, skip=()):
     """cache_inv on the implementation: every `_memoize_cache` entry is a valid answer for its key.
     `skip`: canonical keys written by a deliberately rank-limited (approximate) query."""
@@ -639,12 +644,16 @@ def derive(op, A, d, aux):
         return op.add_diagonal(dv), A + torch.diag_embed(dv.expand(*A.shape[:-1])), True
     if kind == "add_low_rank":
         B = aux["lowrank"][..., :n, :]
+        if len(d) == 3:
+            return op.add_low_rank(B, root_decomp_method=d[1], root_inv_decomp_method=d[2]), A + B @ B.mT, True
         return op.add_low_rank(B), A + B @ B.mT, True
     if kind == "cat_rows":
         B = aux["cross"][..., :, :n]        # o x n
         D = aux["newmat"]
         top = torch.cat([A, B.mT.expand(*A.shape[:-2], n, B.shape[-2])], dim=-1)
         bot = torch.cat([B.expand(*A.shape[:-2], B.shape[-2], n), D.expand(*A.shape[:-2], *D.shape[-2:])], dim=-1)
+        if len(d) == 2:
+            return op.cat_rows(B, D, method=d[1]), torch.cat([top, bot], dim=-2), True
         return op.cat_rows(B, D), torch.cat([top, bot], dim=-2), True
     if kind == "index":
         k = n - 1
@@ -662,6 +671,11 @@ def derive(op, A, d, aux):
     raise ValueError(d)
 
 
+PINNABLE = ("cholesky", "symeig", "svd")   # ("diagonalization" is a Lanczos run above max_cholesky_size: not deterministic)   # deterministic methods: the same method on both sides gives a paired couple
+METHOD_PAIRS = [(a, b) for a in (None, "cholesky", "symeig") for b in (None, "cholesky", "symeig") if (a, b) != (None, None)] \
+    + [("diagonalization", "diagonalization"), ("svd", "svd")]
+
+
 def derivations_for(spec, A):
     if spec.profile in ("tri", "interp", "kernel"):
         ds = [("transpose",), ("scale",)]
@@ -671,8 +685,9 @@ def derivations_for(spec, A):
     ds = [("add_jitter",), ("add_diagonal",), ("add_low_rank",), ("transpose",), ("scale",), ("index",)]
     if spec.profile != "brepeat":   # BatchRepeat's eigendecompositions lose leading singleton batch dims (not a cache matter)
         ds += [("expand",), ("unsqueeze",)]
+    ds += [("add_low_rank", a, b) for a, b in METHOD_PAIRS]
     if A.dim() == 2:
-        ds.append(("cat_rows",))
+        ds += [("cat_rows",), ("cat_rows", "cholesky"), ("cat_rows", "symeig")]
     if A.dim() > 2:
         ds.append(("index_batch",))
     return ds
@@ -862,6 +877,17 @@ def templates(spec):
                   (SM, Q("rootinv", "none", None)), (SM, QS("rootinv", "none", None)), (SM, QS("iql")), (SM, Q("svd")), (SM, QS("sample"))])
         t.append([(SM, Q("svd")), (SM, Q("root", "kw", "svd")), (SM, Q("root", "none", None)), (SM, Q("svd")), (SM, Q("eigh")), (SM, Q("rootinv", "kw", "svd")),
                   (SM, Q("diagz", "none", None)), (SM, Q("root", "kw", "diagonalization")), (SM, Q("diagz", "none", None)), (SM, Q("solve"))])
+    # transplants with explicit method arguments (all pairs), on a fresh object and after cache-filling queries
+    if ("add_low_rank",) in derivations_for(spec, spec.truth):
+        for a, b in METHOD_PAIRS:
+            dd = ("d", ("add_low_rank", a, b))
+            t.append([(DF, dd), (DF, Q("root", "none", None)), (DF, Q("rootinv", "none", None)), (DF, Q("iql")), (DF, ("back",)), (DF, Q("root", "none", None))])
+            t.append([(DF, Q("diagz", "none", None)), (DF, Q("svd")), (DF, dd), (DF, Q("root", "none", None)), (DF, Q("rootinv", "none", None)), (DF, Q("solve"))])
+            t.append([(DF, Q("root", "none", None)), (DF, Q("rootinv", "none", None)), (SM, dd), (DF, Q("root", "none", None)), (DF, Q("sample"))])
+    for m in ("cholesky", "symeig"):
+        if ("cat_rows", m) in derivations_for(spec, spec.truth):
+            t.append([(DF, ("d", ("cat_rows", m))), (DF, Q("root", "none", None)), (DF, Q("rootinv", "none", None)), (DF, Q("solve"))])
+            t.append([(DF, Q("diagz", "none", None)), (DF, ("d", ("cat_rows", m))), (DF, Q("root", "none", None)), (DF, Q("rootinv", "none", None))])
     if "precond" in spec.tags:
         t.append([(SM, Q("precond")), (SM, Q("solve")), (SM, Q("precond")), (SM, Q("iql")), (DF, Q("solve")), (SM, Q("inv_quad")), (SM, Q("precond"))])
         t.append([(SM, Q("solve")), (SM, Q("precond")), (SM, ("d", ("add_jitter",))), (SM, Q("solve")), (SM, ("back",)), (SM, Q("solve"))])
@@ -1083,7 +1109,7 @@ class Runner:
                     modelled = False      # tensor-keyed entries are outside the Lean key grammar
                 if not fr["tainted"]:
                     for b in a_f:
-                        fails.append((f"C12/{fr['cls']}/{fr['lineage']}/cache-audit", f"after step {si} ({q}) settings={st}: {b}"))
+                        fails.append((f"C12/{fr['cls']}/{fr['lineage']}/cache-audit:{entry_name(b)}", f"after step {si} ({q}) settings={st}: {b}"))
                 for u in unknown:
                     chk.corr_break(f"C12/{fr['cls']}/unmodelled-cache-name", f"cache key {u} is not known to the audit", {"key": u})
                 chk.count("q:" + q[0])
@@ -1144,7 +1170,15 @@ class Runner:
                     from linear_operator.operators import TriangularLinearOperator as _Tri
                     tri = isinstance(captured["R"].root, _Tri)
                     fake = tri and Lr.triu(1).abs().max().item() != 0.0 and Lr.tril(-1).abs().max().item() != 0.0
-                    lineage = f"{d[0]}(roots={'paired' if paired else 'unpaired'}{'-faketri' if fake else ('-tri' if tri else '')})"
+                    args_tag = "" if len(d) == 1 else "[" + "|".join(str(x) for x in d[1:]) + "]"
+                    if d[0] == "add_low_rank" and len(d) == 3 and d[1] == d[2] and d[1] in PINNABLE:
+                        # the caller pinned the SAME deterministic method for root and inverse root: they are mutual inverses by
+                        # request, so the transplant must be valid whatever the numeric test says (a dropped method argument
+                        # must not hide behind the open D30 line)
+                        ptag = "pinned-" + d[1] + ("" if paired else "(numerically-not-inverse)")
+                    else:
+                        ptag = "paired" if paired else "unpaired"
+                    lineage = f"{d[0]}{args_tag}(roots={ptag}{'-faketri' if fake else ('-tri' if tri else '')})"
                     chk.count("transplant:" + lineage)
                 cell = f"C12/{fr['cls']}/{fr['lineage']}/d={lineage}"
                 if "roots=" in fr["lineage"]:
@@ -1155,6 +1189,10 @@ class Runner:
                     ok, msg = close(chk_op.to_dense(), newA, 1e-9)
                 env.tap.items = []
                 tainted = fr["tainted"] or getattr(spec, "inconsistent", False)
+                if transplant and len(d) > 1:
+                    ex_ = self.excluded.get(spec.cls, set())
+                    if any(m is not None and (("root", "kw", m) in ex_ or ("rootinv", "kw", m) in ex_) for m in d[1:]):
+                        tainted = True      # that method is already wrong on a fresh object of this class (another property)
                 if not ok:
                     # a cache-free copy of the derived operator already denotes the wrong matrix: the derivation itself is
                     # wrong (C02/C14 territory, e.g. Chol(upper) losing `upper`), not the caches -> not judged here
@@ -1164,7 +1202,7 @@ class Runner:
                     a_f, unknown = audit_cache(new, newA, sticky, pd)
                     if not tainted:
                         for b in a_f:
-                            fails.append((cell + "/transplanted-cache", f"step {si} settings={st}: derived object's {b}"))
+                            fails.append((cell + "/transplanted-cache:" + entry_name(b), f"step {si} settings={st}: derived object's {b}"))
                     if not transplant and [k for k in keyset(new) if key_name(k) != "size"]:
                         chk.count("derived-with-cache:" + d[0])
                 stack.append({"op": new, "A": newA, "pd": pd, "sticky": sticky, "cls": fr["cls"], "lineage": lineage, "tainted": tainted})
@@ -1174,7 +1212,9 @@ class Runner:
                 a_f, _ = audit_cache(op, A, fr["sticky"], fr["pd"], skip=fr.get("approx", ()))
                 if not fr["tainted"]:
                     for b in a_f:
-                        fails.append((f"C12/{fr['cls']}/{fr['lineage']}/cache-audit", f"parent after derivation {d[0]} (step {si}): {b}"))
+                        fails.append((f"C12/{fr['cls']}/{fr['lineage']}/cache-audit:{entry_name(b)}", f"parent after derivation {d[0]} (step {si}): {b}"))
+                if len(d) > 1:
+                    modelled = False        # explicit method arguments: keys outside the driver's `d` grammar
                 if modelled and new is not op:
                     prof2 = model_profile(new)
                     mlines.append(f"d {sline} {d[0]} {prof2 or 'opaque'} {newA.shape[-1]}")
